@@ -34,6 +34,9 @@ boolean / string / numeric expressions on which the C16 theorems turn and which 
     k_vm_from_axes        from_pandas: for `mat[femaleix, maleix, traitix] = variance_data`, the frame column each index derives from
   DensePhasedGenotypeMatrix.from_vcf (c = pgm) / DenseGenotypeMatrix.from_vcf (c = gm), matched statement by statement
     k_vcf_<c>_chrom, k_vcf_<c>_phypos   what is appended to vrnt_chrgrp / vrnt_phypos, over int(variant.CHROM), variant.POS, .start, .end
+                                        (currently int(variant.CHROM) and variant.start + 1; the former variant.POS - cyvcf2's 32-bit field - or any
+                                         other arithmetic over these four attributes is translated as written, so Proofs/C16_Vcf.v : rec_of_line_model
+                                         stops compiling; an expression reading anything else is Untranslatable)
     k_vcf_<c>_name                      str(variant.ID)
     k_vcf_<c>_allele_lo/_hi             the columns of variant.genotypes kept (phases[:, LO:HI])
     k_vcf_<c>_transpose, k_vcf_gm_sum_axis   numpy.int8(mat).transpose(...), mat.sum(<axis>, dtype = 'int8')
@@ -624,7 +627,7 @@ def vcf_kernels(repo, defs):
          vcf = cyvcf2.VCF(filename) ; taxa = numpy.array(vcf.samples, dtype = object) ; mat/vrnt_chrgrp/vrnt_phypos/vrnt_name = []
          for variant in vcf:
              vrnt_chrgrp.append(<Z expression over int(variant.CHROM), variant.POS, variant.start, variant.end>)   -> k_vcf_<c>_chrom
-             vrnt_phypos.append(<the same fragment>)                                                              -> k_vcf_<c>_phypos
+             vrnt_phypos.append(<the same fragment>)   [now: variant.start + 1, 64-bit]                           -> k_vcf_<c>_phypos
              vrnt_name.append(str(variant.ID))                                                                    -> k_vcf_<c>_name
              phases = numpy.int8(variant.genotypes) ; mat.append(phases[:, LO:HI].copy())                         -> k_vcf_<c>_allele_lo/_hi
          mat = numpy.int8(mat).transpose(A, B, C)                                                                 -> k_vcf_<c>_transpose
